@@ -120,15 +120,8 @@ def naiveAll (n w h v : Nat) (setups : List (Option (Int × Int × Edge × Edge)
       if n == 8 then edgesLoop8Naive b (rowFuel 8 t b) t l r img else rasterizeEdges n img l r t b
     | none => img) (Img.mk' w h v)
 
-/-- the byte memory whose bytes `0 … arr.size-1` are `arr`, `byte` elsewhere -/
-def memOf (arr : Array Nat) (byte : Nat) : Pixman.Model.Format.Mem := fun a => arr[a]?.getD byte
-
-/-- the bytes `0 … len-1` of a memory, read out once (the model's memories are closures over closures and Lean
-    re-evaluates a function-valued definition at every application: the driver keeps the state as an array) -/
-def bytesOf (m : Pixman.Model.Format.Mem) (len : Nat) : Array Nat := (Array.range len).map fun i => m i
-
-/-- the word/byte-level ROW BODIES of `Model/TrapWords.lean` (a1 word masks, a4 nibble read-modify-write, a8 bytes with
-    the span-fill bookkeeping and flush) run over the rows `walkRows` visits, on C10's byte memory: rows of
+/-- `Model/TrapWords.lean`'s `rasterizeEdgesW` (a1 word masks, a4 nibble read-modify-write, a8 bytes with the span-fill
+    bookkeeping and flush, over the rows `walkRows` visits; in its array-backed form `rasterizeEdgesWB`) on C10's byte memory: rows of
     `stride = ⌈w·n/32⌉` words at byte address 64, every pixel position (padding included) initialised to `v`; `true`
     when some pixel decoded with C10's `fetchRaw` differs from the array model's image `m`, or a padding position or a
     byte around the image changed.  Small requests only (a4/a8: width ≤ 9 — a read through the closure chain of one row
@@ -145,25 +138,9 @@ def wordsDiffer (n w h v : Nat) (setups : List (Option (Int × Int × Edge × Ed
   let arr := setups.foldl (fun (arr : Array Nat) s =>
     match s with
     | none => arr
-    | some (t, b, l, r) =>
-      let rows := walkRows n b (rowFuel n t b) t l r
-      let last := rows.length - 1
-      let st := rows.foldl (fun (st : Array Nat × Fill × Nat) (row : Int × Int × Int) =>
-        let (y, lx, rx) := row
-        let line := bits + 4 * ((fixedToInt y).toNat * stride)
-        let mem := memOf st.1 byte
-        if n == 8 then
-          let p := Pixman.TrapWords.row8FillW mem line (w : Int) lx rx st.2.1
-          let a1 := bytesOf p.1 total
-          if st.2.2 == last || fixedFrac y == Pixman.Gen.SampleGrid.yFracLast 8 then
-            (bytesOf (Pixman.TrapWords.flushFillW (memOf a1 byte) line p.2) total, ({} : Fill), st.2.2 + 1)
-          else (a1, p.2, st.2.2 + 1)
-        else if n == 1 then (bytesOf (Pixman.TrapWords.row1W mem line (w : Int) lx rx) total, st.2.1, st.2.2 + 1)
-        else (bytesOf (Pixman.TrapWords.row4W mem line (w : Int) lx rx) total, st.2.1, st.2.2 + 1))
-        (arr, ({} : Fill), 0)
-      st.1) a0
-  let mem := memOf arr byte
-  let m0 := memOf a0 byte
+    | some (t, b, l, r) => Pixman.TrapWords.rasterizeEdgesWB total byte n bits stride (w : Int) arr l r t b) a0
+  let mem := Pixman.TrapWords.memOf arr byte
+  let m0 := Pixman.TrapWords.memOf a0 byte
   let perRow := stride * 32 / n
   let badPix := (List.range h).any fun r => (List.range perRow).any fun c =>
     let got := Pixman.Model.Format.fetchRaw mem (bits + 4 * (r * stride)) c n
